@@ -8,6 +8,7 @@ import (
 
 	"github.com/refraction-networking/uquic/internal/protocol"
 	"github.com/refraction-networking/uquic/internal/qerr"
+	"github.com/refraction-networking/uquic/internal/verifhook"
 	"github.com/refraction-networking/uquic/internal/wire"
 )
 
@@ -98,6 +99,7 @@ func (m *outgoingStreamsMap[T]) OpenStreamSync(ctx context.Context) (T, error) {
 
 	for {
 		m.mutex.Unlock()
+		verifhook.Point("streams.openSync.beforeWait")
 		select {
 		case <-ctx.Done():
 			m.mutex.Lock()
